@@ -374,9 +374,52 @@ func (w *world) exec(o op, plan ckit.Plan) outcome {
 	return out
 }
 
+var lockKinds = map[string]bool{"lock": true, "locked": true, "unlock": true, "trylock": true}
+
+var usageWrites = map[string]bool{"pluginSetUsage:incr": true, "pluginSetUsage:decr": true, "pluginAlloc": true, "pluginRealloc": true,
+	"pluginRollbackAlloc": true, "pluginRollbackRealloc": true}
+
+// noLocks drops the lock events (they are neither fault addresses nor part of the compared trace)
+func noLocks(evs []ckit.Event) []ckit.Event {
+	out := []ckit.Event{}
+	for _, e := range evs {
+		if !lockKinds[e.Kind] {
+			out = append(out, e)
+		}
+	}
+	return out
+}
+
+// lockViolations replays the lock / unlock events of a trace (arrival order) and lists the
+// usage-changing plugin calls made while the pod lock of the node's pod was not held.
+func (w *world) lockViolations(evs []ckit.Event) []string {
+	pods := map[string]string{}
+	for _, n := range w.cl.Snapshot().Nodes {
+		pods[n.Name] = n.Pod
+	}
+	held := map[string]int{}
+	out := []string{}
+	for _, e := range evs {
+		switch {
+		case e.Kind == "locked":
+			held[e.Node]++
+		case e.Kind == "unlock":
+			held[e.Node]--
+		case usageWrites[e.Kind]:
+			if p, ok := pods[e.Node]; ok && held["plock_"+p] <= 0 {
+				out = append(out, e.Kind+"@"+e.Node)
+			}
+		}
+	}
+	return out
+}
+
 func trOf(evs []ckit.Event) []trJ {
 	out := []trJ{}
 	for _, e := range evs {
+		if lockKinds[e.Kind] {
+			continue
+		}
 		out = append(out, trJ{Kind: e.Kind, Node: e.Node, Injected: e.Injected})
 	}
 	sort.Slice(out, func(i, j int) bool {
@@ -885,7 +928,7 @@ func TestGen(t *testing.T) {
 		replay(t, rp, out)
 		return
 	}
-	cl := ckit.NewCluster(t, ckit.Options{})
+	cl := ckit.NewCluster(t, ckit.Options{TraceLocks: true})
 	d := &driver{t: t, cl: cl, r: r, out: out, budget: budget}
 	d.corpus()
 	hist := 0
@@ -927,10 +970,10 @@ func (d *driver) step(w *world, o op, pre snapJ, base string, setup []map[string
 	post := w.snap()
 	setCap(o, args, post)
 	out.Emit(&kase{ID: base, Op: o.s("op"), Args: args, Req: o, Pre: pre, Post: post, Msgs: nz(res.msgs), Ret: res.ret,
-		Trace: trOf(res.trace), Impl: map[string]any{"diffs": post.Diffs}, Setup: setup})
+		Trace: trOf(res.trace), Impl: map[string]any{"diffs": post.Diffs}, LockViol: w.lockViolations(res.trace), Setup: setup})
 	cpAfter := cl.Checkpoint()
 	nextAfter := w.next
-	addrs := ckit.Addresses(res.trace)
+	addrs := ckit.Addresses(noLocks(res.trace))
 	if !all {
 		hx.Shuffle(r, addrs)
 		if len(addrs) > 3 {
@@ -953,7 +996,7 @@ func (d *driver) step(w *world, o op, pre snapJ, base string, setup []map[string
 		fpost := w.snap()
 		setCap(o, fargs, post)
 		out.Emit(&kase{ID: fmt.Sprintf("%s-f%d", base, ai), Op: o.s("op"), Args: fargs, Req: o, Fault: mf, IFlt: &a, Fired: fired,
-			Pre: pre, Post: fpost, Msgs: nz(fres.msgs), Ret: fres.ret, Trace: trOf(fres.trace), Impl: map[string]any{"diffs": fpost.Diffs}, Setup: setup})
+			Pre: pre, Post: fpost, Msgs: nz(fres.msgs), Ret: fres.ret, Trace: trOf(fres.trace), Impl: map[string]any{"diffs": fpost.Diffs}, LockViol: w.lockViolations(fres.trace), Setup: setup})
 		if keepFaulty && ai == len(addrs)-1 {
 			cpAfter = nil // continue the history from this faulty post-state
 		}
